@@ -32,10 +32,22 @@ def _(c):
     OBJ, CEN = 499, 4
     pairs = {(CEN, OBJ): seg} if direction == "frame.center -> object" else {(OBJ, CEN): seg}
     frame = types.SimpleNamespace(center=types.SimpleNamespace(index=CEN), name="MarsBarycenter")
-    w = c.world(names={JPL: {"Bsp": lambda: types.SimpleNamespace(pairs=pairs), "Orbit": lambda coord, date, form, fr, prop: made.append((coord, date, form, fr, prop)) or "ORBIT"}})
-    p = w.obj(f"{JPL}:JplPropagator", obj=types.SimpleNamespace(index=OBJ, name="Mars"), frame=frame, name="Mars")
+
+    def mk_orbit(coord, date, form, fr, prop):
+        made.append((coord, date, form, fr, prop))
+        return types.SimpleNamespace(date=date, frame=fr, form=form, coord=coord, propagator=prop)
+    w = c.world(names={JPL: {"Bsp": lambda: types.SimpleNamespace(pairs=pairs), "Orbit": mk_orbit}})
+    p = w.new(f"{JPL}:JplPropagator", types.SimpleNamespace(index=OBJ, name="Mars"), frame)   # through the real __init__
     t = c.real("t")
-    res = p.propagate(LDate(t, c.integer("label", lo=0, hi=5)))
+    lab = c.integer("label", lo=0, hi=5)
+    res = p.propagate(LDate(t, lab))
+    # every call gives a state of its own, computed from the segment: asking again (same instant) after the first result
+    # has been handed out does not hand out that object once more
+    res2 = p.propagate(LDate(t, lab))
+    c.ensure("fresh_state_per_call", bool(res2 is not res and len(made) == 2))
+    if len(made) == 2:
+        c.ensure("same_state_again", c.all_eq(np.asarray(made[1][0]), np.asarray(made[0][0])))
+    del asked[1:]
     coord, date, form, fr, prop = made[0]
     sign = 1 if direction == "frame.center -> object" else -1
     want_v = vel / 86400 if fmt == "pos3_vel3" else vel6
@@ -107,6 +119,11 @@ def _(c):
     c.ensure("velocity_is_derivative", np.linalg.norm(fd - st[3:]) <= (0.02 if body == "Sun" else 0.05) * np.linalg.norm(fd))
 
 
+def _one_hour():
+    from datetime import timedelta
+    return timedelta(hours=1)
+
+
 def _grid_pairs(tier, rng):
     """every ordered pair of the 15 bodies of the kernel x 4 (quick) / 12 dates 2000-2020 x with / without the PCK constant files"""
     ids = [1, 2, 3, 4, 5, 6, 7, 8, 9, 10, 199, 299, 301, 399, 499]
@@ -166,3 +183,13 @@ def _(c):
     ref = np.concatenate([pa - pb, va - vb]) * 1000
     c.ensure("position_1mm", np.linalg.norm(got[:3] - ref[:3]) <= 1e-3 + 1e-15 * np.linalg.norm(ref[:3]) * 10)
     c.ensure("velocity", np.linalg.norm(got[3:] - ref[3:]) <= 1e-6 + 1e-12 * np.linalg.norm(ref[3:]))
+    # the answer for a body at a date does not depend on what the caller did with an earlier answer
+    first = jpl.get_orbit(name(a), date)
+    before = np.array(first, dtype=float)
+    first.frame = name(b)
+    first[:3] += 1.0e6
+    second = jpl.get_orbit(name(a), date)
+    c.ensure("answers_are_independent", second is not first and second.frame.name == jpl.get_orbit(name(a), date + _one_hour()).frame.name
+             and bool(np.array_equal(np.array(second, dtype=float), before)))
+    got2 = np.asarray(jpl.get_orbit(name(a), date).copy(frame=name(b)), dtype=float)
+    c.ensure("same_vector_again", bool(np.array_equal(got2, got)))
